@@ -226,6 +226,18 @@ func (in *Interp) feasible(lit *smt.Term) (smt.Result, []uint64) {
 	if lit.IsFalse() {
 		return smt.Unsat, nil
 	}
+	if !lit.Many && len(lit.Vars) > 1 || lit.Many {
+		switch in.ivalBool(lit, 0) {
+		case 0:
+			in.W.Stats.DomainDecided++
+			return smt.Unsat, nil
+		case 1:
+			if p.modelOK && in.evalBool(lit) {
+				in.W.Stats.DomainDecided++
+				return smt.Sat, append([]uint64{}, p.model...)
+			}
+		}
+	}
 	if v, w, ok := in.singleSmall(lit); ok {
 		t := in.table(lit, v, w)
 		x := firstBit(t)
